@@ -109,6 +109,7 @@ mechanisms:
           - header: X-Token
         assertions:
           issuers: [ "iss1" ]
+        cache_ttl: 3h
     - id: introspect_md
       type: oauth2_introspection
       config:
@@ -227,11 +228,13 @@ var specs = []mechSpec{
 	{"authenticator", "introspect", []map[string]any{
 		{"assertions": map[string]any{"issuers": []any{"iss2"}}}, {"assertions": map[string]any{"audience": []any{"svc-x"}}},
 		{"assertions": map[string]any{"scopes": []any{"admin"}}}, {"cache_ttl": "7s"}, {"allow_fallback_on_error": true},
-		{"assertions": map[string]any{"validity_leeway": "1m"}}}},
-	{"authenticator", "introspect_md", []map[string]any{{"assertions": map[string]any{"issuers": []any{"iss2"}}}, {"assertions": map[string]any{"scopes": []any{"admin"}}}, {"cache_ttl": "7s"}}},
+		{"assertions": map[string]any{"validity_leeway": "1m"}},
+		// a ttl beyond the lifetime of the introspected token: the effective ttl of an entry is then derived per response
+		{"cache_ttl": "2h"}}},
+	{"authenticator", "introspect_md", []map[string]any{{"assertions": map[string]any{"issuers": []any{"iss2"}}}, {"assertions": map[string]any{"scopes": []any{"admin"}}}, {"cache_ttl": "7s"}, {"cache_ttl": "2h"}}},
 	{"authenticator", "jwt", []map[string]any{
 		{"assertions": map[string]any{"issuers": []any{"iss2"}}}, {"assertions": map[string]any{"audience": []any{"svc-x"}}},
-		{"assertions": map[string]any{"allowed_algorithms": []any{"ES256"}}}, {"cache_ttl": "7s"}, {"allow_fallback_on_error": true}}},
+		{"assertions": map[string]any{"allowed_algorithms": []any{"ES256"}}}, {"cache_ttl": "7s"}, {"allow_fallback_on_error": true}, {"cache_ttl": "2h"}}},
 	{"authenticator", "jwt_md", []map[string]any{{"assertions": map[string]any{"issuers": []any{"iss2"}}}, {"assertions": map[string]any{"audience": []any{"svc-x"}}}, {"cache_ttl": "7s"}}},
 	{"authorizer", "allow", nil},
 	{"authorizer", "deny", nil},
